@@ -72,13 +72,17 @@ func (P *Prog) afterOnlySuccess(fn *ssa.Function, in ssa.Instruction) (bool, str
 	for _, x := range fr.exits {
 		exitOf[x.ret] = append(exitOf[x.ret], x)
 	}
-	seen := map[*ssa.BasicBlock]bool{}
+	type edge struct{ from, to *ssa.BasicBlock }
+	seen := map[edge]bool{}
 	var bad string
-	var walk func(b *ssa.BasicBlock, fromIdx int)
-	walk = func(b *ssa.BasicBlock, fromIdx int) {
+	var walk func(b *ssa.BasicBlock, fromIdx int, from *ssa.BasicBlock)
+	walk = func(b *ssa.BasicBlock, fromIdx int, from *ssa.BasicBlock) {
 		for i := fromIdx; i < len(b.Instrs); i++ {
 			if ret, ok := b.Instrs[i].(*ssa.Return); ok {
 				for _, x := range exitOf[ret] {
+					if x.pred != nil && from != nil && x.pred != from {
+						continue // virtual exit of another incoming edge
+					}
 					switch {
 					case x.kind == exitSuccess && !x.delegated:
 					case x.delegated:
@@ -96,9 +100,9 @@ func (P *Prog) afterOnlySuccess(fn *ssa.Function, in ssa.Instruction) (bool, str
 			}
 		}
 		for _, s := range b.Succs {
-			if !seen[s] {
-				seen[s] = true
-				walk(s, 0)
+			if !seen[edge{b, s}] {
+				seen[edge{b, s}] = true
+				walk(s, 0, b)
 			}
 		}
 	}
@@ -108,7 +112,7 @@ func (P *Prog) afterOnlySuccess(fn *ssa.Function, in ssa.Instruction) (bool, str
 			idx = i + 1
 		}
 	}
-	walk(in.Block(), idx)
+	walk(in.Block(), idx, nil)
 	return bad == "", bad
 }
 
